@@ -162,7 +162,8 @@ def norm_exc(s: str) -> str:
     return s
 
 
-def run(ctx: Ctx, pool) -> None:
+def run(ctx: Ctx, pool, col=None):
+    """two-phase (generator): up to the submitted C compile, `yield`, then the compiled runs"""
     rng = ctx.rng
     sigs = all_sigs(ctx.pick(3, 4))
     calls = all_calls(ctx.pick(3, 4))
@@ -226,6 +227,8 @@ def run(ctx: Ctx, pool) -> None:
         keep = [g for g in keep if g not in bad_fns]
     else:
         raise ToolFailure("binding module still rejected after filtering: " + "; ".join(fr.errors[:3]))
+    if col is not None:
+        col.add_modules("binding", fr.modules)
     ctx.coverage["bind_native_calls_accepted_by_mypy"] = len(keep)
     ctx.coverage["bind_native_calls_rejected_by_mypy"] = len(callers) - len(keep)
     d = os.path.join(ctx.tmp, "bind")
@@ -239,6 +242,7 @@ def run(ctx: Ctx, pool) -> None:
     mout = ctx.lean_driver("Driver/C12Bind.lean", mlines)
     if len(mout) != len(mlines):
         raise ToolFailure("Driver/C12Bind: wrong number of output lines")
+    yield
     ok, log, secs = fut.result()
     if not ok:
         raise ToolFailure("mypyc could not compile the binding module:\n" + log[-2500:])
